@@ -27,6 +27,7 @@ class Ctx:
         self.evaluations = 0
         self.nontrivial = set()
         self.findings = [f for f in load_findings() if f["property"] == pid]
+        self.model_ok = True
         self.escalate = False      # set when a proof / translator / correspondence broke
 
     # ------------------------------------------------------------------
